@@ -283,7 +283,7 @@ def spec_cell_size(io_ok, io_area, q_enabled, resp_cell, resp_area, termux, swap
     return If(use_io, io_val, q_val)
 
 
-@unit("C15", "utils:get_cell_size")
+@unit(("C15", "C12"), "utils:get_cell_size")
 def u_get_cell_size(ctx):
     obs = []
     fn = ctx.fn(UTILS, "get_cell_size")
@@ -389,10 +389,10 @@ def u_get_cell_size(ctx):
             else:
                 r = And(Not(unknown), Eq(val, value))
             unchanged = And(len(c) == 4, *[Eq(a, b) for a, b in zip(c, old_cache)])
-            # whatever is left in the cache for the current terminal size is the fresh value (the code may also leave
-            # an entry for another terminal size in place: that is only a missed optimisation)
-            valid = And(len(c) == 4, Implies(And(Eq(c[0], tw), Eq(c[1], th)), Eq((c[2], c[3]), tuple(fresh) if not hit is True else None)) if False else
-                        Implies(And(Eq(c[0], tw), Eq(c[1], th)), Eq((c[2], c[3]), value)))
+            # after a miss the cache records the current terminal size with the fresh value (also when it is `unknown`): an entry
+            # must never survive a change of the terminal size, or it would be served again when the size comes back although
+            # the pixel geometry may differ by then (seeded change C15-2 exploits exactly a relaxed version of this clause)
+            valid = And(len(c) == 4, If(hit, unchanged, Eq(tuple(c), (tw, th) + tuple(fresh))))
             # ghost update: a value written now was computed under the current settings
             s.ghost["cs_swap"], s.ghost["cs_q"] = If(unchanged, s.ghost["cs_swap"], swap), If(unchanged, s.ghost["cs_q"], q)
             goal = And(r, Implies(hit, unchanged), valid, I_cs(s, u, cache),
@@ -400,6 +400,7 @@ def u_get_cell_size(ctx):
                        # a cache hit neither touches the tty nor queries
                        Implies(hit, Not(s.ghost["queried"])))
             eng.oblige("value=cached-if-terminal-size-unchanged-else-fresh", s, goal, kind="post", replay="C15.get_cell_size")
+            eng.oblige("C12:cell-size-derived-as-documented(ioctl,else-XTWINOPS-cell,else-text-area/terminal;swap)", s, And(r, Implies(Not(hit), valid)), prop="C12", kind="post", replay="C15.get_cell_size")
         obs += eng.obligations
     return obs
 
